@@ -1029,6 +1029,39 @@ theorem filtmp_backward_denotes_complex_pipeline {n : ℕ} (p : Params) (D : ℕ
   unfold conjT
   simp only [ev_psumConj]
 
+/-! ### the Fresnel propagator, computed exactly by the driver (op `prop`) -/
+
+/-- **The driver's exact Fresnel propagation denotes `propagate`**: on the transfer-function branch, the complex number
+denoted by `filterP` on formal phase sums with the transfer function `fresnelTFP` is `propagate p h Dir` of the denoted
+input, pixel by pixel. -/
+theorem prop_denotes_propagate (p : Params) (h : padOK p = true) (hk : p.kind = .fresnel) (hn : p.n ≠ 0) (hl : p.lam ≠ 0)
+    (hb : impulseBranch p = false) (Dir : Fin (my p) × Fin (mx p) → ℂ) (X : ℕ → ℕ → Fft.PSum) (j : Fin p.ny × Fin p.nx) :
+    PSum.ev (filterP p (pKerF (my p)) (pKerF (mx p)) (pKerB (my p)) (pKerB (mx p))
+        (Fft.PSum.ofRat (1 / ((my p * mx p : ℕ) : ℚ))) (fresnelTFP p) X (j.1 : ℕ) (j.2 : ℕ))
+      = propagate p h Dir (fun i => PSum.ev (X (i.1 : ℕ) (i.2 : ℕ))) j := by
+  have e1 : PSum.ev (filterP p (pKerF (my p)) (pKerF (mx p)) (pKerB (my p)) (pKerB (mx p))
+        (Fft.PSum.ofRat (1 / ((my p * mx p : ℕ) : ℚ))) (fresnelTFP p) X (j.1 : ℕ) (j.2 : ℕ))
+      = filterP p (kF (my p)) (kF (mx p)) (kB (my p)) (kB (mx p)) (((my p * mx p : ℕ) : ℂ)⁻¹)
+          (fun a b => PSum.ev (fresnelTFP p a b)) (fun a b => PSum.ev (X a b)) (j.1 : ℕ) (j.2 : ℕ) := by
+    unfold filterP
+    rw [filterN_map PSum.ev PSum.ev_zero PSum.ev_add PSum.ev_mul, ev_scale,
+      funext (ev_pKerF (my p)), funext (ev_pKerF (mx p)), funext (ev_pKerB (my p)), funext (ev_pKerB (mx p))]
+  rw [e1]
+  unfold propagate
+  rw [filter_dft2_apply]
+  unfold filterP
+  apply filterN_congr
+  · intro a ha b hb'
+    unfold ext2
+    rw [dif_pos ⟨ha, hb'⟩, modelD_of_tf hb]
+    show _ = sampledTF p (ifftshiftIdx (my p) a) (ifftshiftIdx (mx p) b)
+    rw [sampledTF_fresnel_eq_turns p hk hn hl]
+    exact ev_psumMeanTurns _
+  · intro a ha b hb'
+    unfold ext2
+    rw [dif_pos ⟨ha, hb'⟩]
+
+
 /-- The hypotheses of the pipeline theorems are satisfiable with a genuinely padded, exactly executable size
 (`2×3` padded to `4×4`, the kernels of which are powers of `i`: a case the driver op `filt` runs). -/
 example : ∃ p : Params, padOK p = true ∧ my p = 4 ∧ mx p = 4 ∧ cutout p = some (1, 4, 1, 3) :=
